@@ -1,0 +1,9 @@
+//go:build !verif
+
+package server
+
+func verifTrace(srv *server, ev string, kv ...interface{}) {}
+
+func verifGate(srv *server, point string, kv ...interface{}) {}
+
+func verifConn(c *client) string { return "" }
